@@ -15,8 +15,21 @@ for w in $(seq 1 $N); do
 done
 wait
 for w in $(seq 1 $N); do
-  for s in "${seeds[@]}"; do
-    if [ -f /tmp/vw$w/seeded/$s/meta.json ] && ! cmp -s /tmp/vw$w/seeded/$s/meta.json /verif/seeded/$s/meta.json; then cp /tmp/vw$w/seeded/$s/meta.json /verif/seeded/$s/meta.json; fi
+  # copy back only the outcomes of the seeds THIS worker ran (every worker holds a stale copy of all the others)
+  for k in "${!seeds[@]}"; do
+    if [ $(( k % N + 1 )) -eq $w ]; then
+      s="${seeds[$k]}"
+      if [ -f /tmp/vw$w/seeded/$s/meta.json ]; then
+        /venv/bin/python - "$s" "/tmp/vw$w/seeded/$s/meta.json" <<'PY'
+import json, sys
+s, src = sys.argv[1], sys.argv[2]
+dst = f'/verif/seeded/{s}/meta.json'
+new = json.load(open(src)); old = json.load(open(dst))
+old['check'] = new.get('check', old.get('check'))      # keep the validation record of /verif, take the check outcome of the worker
+json.dump(old, open(dst, 'w'), indent=1)
+PY
+      fi
+    fi
   done
   rm -rf /tmp/vw$w; git -C /repo worktree remove --force /tmp/rw$w
 done
